@@ -34,7 +34,7 @@ ASSUMPTIONS = [
     'the failure cases cover ephemeral services (ADD_ONION); filesystem services are covered by the option table only',
 ]
 BOUNDS = {'quick': {'options': 'ephemeral {None,T,F} x hidden_service_dir x auth {none,basic,stealth} x stealth_auth x private_key x single_hop x version',
-                    'fault_steps': 7, 'public_port': 'symbolic 1..65535'},
+                    'fault_steps': 7, 'descriptor_wait': 'with / without a second service publishing to another directory meanwhile', 'public_port': 'symbolic 1..65535'},
           'thorough': {}}
 OUTSIDE = ['real sockets / file systems', 'filesystem-service listen() (needs hostname files on disk)', 'TCPHiddenServiceEndpointParser private-key files']
 
@@ -86,7 +86,7 @@ def setup(mode):
     endpoints.tempfile = type('T', (), {'mkdtemp': staticmethod(lambda prefix='': '/nonexistent/tortmp-harness')})
 
 
-def _listen(version, use_auth, single_hop, with_key, public_port, fault, with_local_port=False, retry=False):
+def _listen(version, use_auth, single_hop, with_key, public_port, fault, with_local_port=False, retry=False, foreign=False):
     """fault: 0 none, 1 config Deferred fails, 2 config is not a TorConfig, 3 local bind fails, 4 ADD_ONION rejected,
     5 every upload FAILED, 6 connection lost before the ADD_ONION reply"""
     p, t, tor = make_world(dict(INITIAL), True, {})
@@ -148,6 +148,14 @@ def _listen(version, use_auth, single_hop, with_key, public_port, fault, with_lo
             p.lineReceived(('650 HS_DESC UPLOAD %s UNKNOWN %s x' % (SID, hsdir)).encode('ascii'))
             if o.fired:
                 return R('listen-fired-before-the-descriptor-wait-was-over')
+            if foreign:
+                # another service publishing on the same Tor, to a directory this service did not use
+                other, odir = 'qrstuvwxyzabcdef', '$' + 'B' * 40 + '~e'
+                p.lineReceived(('650 HS_DESC UPLOAD %s UNKNOWN %s x' % (other, odir)).encode('ascii'))
+                p.lineReceived(('650 HS_DESC UPLOADED %s UNKNOWN %s' % (other, odir)).encode('ascii'))
+                tor.pump()
+                if o.fired:
+                    return R('listen-fired-on-another-services-upload', 'ok=%d err=%d', o.ok, o.err)
             if fault == 0:
                 p.lineReceived(('650 HS_DESC UPLOADED %s UNKNOWN %s' % (SID, hsdir)).encode('ascii'))
             else:
@@ -191,16 +199,18 @@ def _listen(version, use_auth, single_hop, with_key, public_port, fault, with_lo
 
 
 @cond(quick=dict(parts=[{'fault': f} for f in range(7)], budget=100))
-def c17_listen(fault: int, version: int, single_hop: bool, with_key: bool, public_port: int, with_local_port: bool, retry: bool) -> str:
+def c17_listen(fault: int, version: int, single_hop: bool, with_key: bool, public_port: int, with_local_port: bool, retry: bool, foreign: bool) -> str:
     """ephemeral endpoint, failure injected at step `fault`; version / single-hop / key / public port / caller-supplied
     local_port / a retry of listen() after the failure chosen by the solver"""
     version = api.pick_from(version, (2, 3))
     public_port = api.pick_from(public_port, (1, 80, 65535))
     if fault not in (4, 5):
         assume(not retry)
+    if fault not in (0, 5):
+        assume(not foreign)
     with api.no_tracing():
         return _listen(version, False, True if single_hop else False, True if with_key else False, public_port, fault,
-                       True if with_local_port else False, True if retry else False)
+                       True if with_local_port else False, True if retry else False, True if foreign else False)
 
 
 def _valid(ephemeral, hsdir, auth, stealth_auth, private_key, single_hop):
